@@ -145,6 +145,34 @@ Proof.
   - split; [|discriminate]. intros _. split; [reflexivity|]. now rewrite (RR _ id HI), Er.
 Qed.
 
+(* with the COMMIT as one more fault position: a Delete that returns nil has removed every row of the plan,
+   whatever happened to the commit; a Delete / Create whose commit failed changed nothing *)
+Lemma txn_f_false m d : txn_f false m d = txn m d.
+Proof. unfold txn_f, txn. destruct (m d) as [d1 [|]]; reflexivity. Qed.
+Lemma txn_f_true m d : txn_f true m d = (d, false).
+Proof. unfold txn_f. destruct (m d) as [d1 [|]]; reflexivity. Qed.
+
+Lemma c14_delete_nil_implies_gone_lemma cf ops id d' :
+  ops_ok [] ops ->
+  SqliteModel.delete_f dec_req dec_att cf id (sq_run ops []) = (d', true) ->
+  (forall r, In r d' -> row_plan r <> id) /\ sq_read id d' = None.
+Proof.
+  intros Hok Hd.
+  assert (H : sq_delete id (sq_run ops []) = (d', true)).
+  { revert Hd. unfold SqliteModel.delete_f, SqliteModel.delete. destruct (sq_read id (sq_run ops [])); [|exact (fun H => H)].
+    destruct cf; [rewrite txn_f_true; discriminate | now rewrite txn_f_false]. }
+  destruct (c14_delete_exact_lemma ops id d' true Hok H) as [_ G]. destruct (G eq_refl) as (A & _ & B & _). auto.
+Qed.
+
+Lemma c14_commit_failure_changes_nothing_lemma p id d :
+  SqliteModel.create_f enc_req enc_att true p d = (d, false)
+  /\ SqliteModel.delete_f dec_req dec_att true id d = (d, false).
+Proof.
+  unfold SqliteModel.create_f, SqliteModel.delete_f. split.
+  - destruct (uid_nil (sp_id p)); [reflexivity|]. destruct (exists_plan (sp_id p) d); [reflexivity | apply txn_f_true].
+  - destruct (sq_read id d); [apply txn_f_true | reflexivity].
+Qed.
+
 End Thm.
 
 (* ---------------- what the specification's read means ---------------- *)
